@@ -571,7 +571,7 @@ def run(rep, tier="quick", srcdir=None, only=None):
 
 
 MANIFEST = {
-    "technique": "dominance / control-dependence rules with value identity, switch-table agreement across units, must-pass rules (LLVM IR)",
+    "technique": "dominance / control-dependence rules with value identity, switch-table agreement across units, must-pass rules (LLVM IR) + concrete evaluation of the timer clock re-configuration over every (old clock, new clock) pair",
     "level": "necessary conditions only: due-test dominance of every delivery (never early), guarded missed-count arithmetic, per-clock agreement between the "
              "kernel timer and the clock reader, unconditional discard of stale pending data on reconfiguration, and local comparison discipline of the heap "
              "re-sift; 'every armed timer eventually fires for every heap population' needs an inductive heap invariant and is NOT decided",
